@@ -25,7 +25,7 @@ META = {
     "ready": True,
     "category": "proof",
     "technique": "Lean 4 invariant proof over the step-level transition system of the stop-the-world handshake (any number of threads, all interleavings) + tables regenerated from vm.rs / jit.rs / transducers.rs + generated multi-threaded programs on the real engine under a progress-counter watchdog, JIT on and off",
-    "level_text": "Theorems (lean/SteelVerif/C16/Props.lean, over the transition system of C15/Model.lean: every access to a pause flag, state, published pointer, park token, the threads mutex and the heap mutex is one atomic step): no_deadlock_code - for the current protocol (heap-lock guard kept during with_locked_env; tied to the sources by the regenerated gate_keeps_guard) and for every number of threads and every schedule respecting the guard (no spawn / host interrupt during a round, no stop request to a thread that is leaving a safepoint), in every reachable state some thread can take a runtime step that changes the state, or every thread is finished, free to run script code, or inside a primitive; round_rank_decreases - every productive step of a stopper lowers a rank bounded by 9*len+13; stop_round_terminates - along every spawn-free schedule (every interleaving with other threads' steps) a stopper changes its pc at most that many times before its round is over; join_once, join_exactly_once (a join after the exit: exactly one call receives the value); channel_fifo_per_sender (join handles and channels modelled by their specifications). For the protocol before /repo d9e2a72a: dual_stopper_deadlock (a 20-line schedule reaches a deadlocked state) and no_deadlock_partial under 'one stop request at a time'. blocking_paths_publish: every call of a plain built-in outside the listed functions is wrapped in enter_safepoint; the full statement is false (not_blocking_paths_publish: transducer/stream callbacks, apply, JIT tail calls - finding K16b). LOCK ORDER (C16-n3): lean/SteelVerif/C16/LockOrder.lean models the host root table (GLOBAL_ROOTS) as a mutex that script threads take from UNPUBLISHED code and the collector takes to read the roots: no_deadlock_stop_first - with the code's order (the table is a leaf lock of the collector: taken after the world is stopped, released before it is resumed) no reachable state is deadlocked, for every number of mutators and every schedule; lock_first_deadlocks - the reversed order deadlocks in 4 steps with one mutator. Tied to the source by translate/c16_locks.py (regenerated every run): spin_holds_no_unpublished_lock (no named guard bound by Heap::mark / with_locked_env before enumerate_stacks / call_per_ctx is on a mutex that is taken outside a safepoint), root_table_taken_unpublished, heap_lock_inside_safepoint (every heap.lock outside the serialised-spawn / engine-clone paths is inside enter_safepoint). NOT a theorem: liveness under a real OS scheduler (no fairness is assumed or proved - the theorems say a step exists, not that it is taken), and that the Rust code follows the model - that is the program-level run: generated programs must finish with the generator's value while the watchdog sees stop requests complete and instructions being dispatched.",
+    "level_text": "Theorems (lean/SteelVerif/C16/Props.lean, over the transition system of C15/Model.lean: every access to a pause flag, state, published pointer, park token, the threads mutex and the heap mutex is one atomic step): no_deadlock_code - for the current protocol (heap-lock guard kept during with_locked_env; tied to the sources by the regenerated gate_keeps_guard) and for every number of threads and every schedule respecting the guard (no spawn / host interrupt during a round, no stop request to a thread that is leaving a safepoint), in every reachable state some thread can take a runtime step that changes the state, or every thread is finished, free to run script code, or inside a primitive; round_rank_decreases - every productive step of a stopper lowers a rank bounded by 9*len+13; stop_round_terminates - along every spawn-free schedule (every interleaving with other threads' steps) a stopper changes its pc at most that many times before its round is over; join_once, join_exactly_once (a join after the exit: exactly one call receives the value); channel_fifo_per_sender (join handles and channels modelled by their specifications). For the protocol before /repo d9e2a72a: dual_stopper_deadlock (a 20-line schedule reaches a deadlocked state) and no_deadlock_partial under 'one stop request at a time'. blocking_paths_publish: every call of a plain built-in is wrapped in enter_safepoint (directly or through call_primitive_func / call_boxed_func / call_builtin_published) outside the functions excused while K16b is open (openK16b, regenerated from the source and KNOWN_FINDINGS.txt, tight: open_k16b_tight; empty once the finding is fixed - then blocking_paths_publish_full is the full statement and an unwrapped arm breaks the obligation); R.prim_holds_no_lock / R.blocked_in_prim_unblocks_stopper (ProgressR.lean): a thread inside a primitive's safepoint holds neither the heap lock nor the threads mutex and never makes a stopper wait, so wrapping a blocking built-in cannot deadlock. The repair is proposed as .build/C16/proposed-fix-K16b.diff. LOCK ORDER (C16-n3): lean/SteelVerif/C16/LockOrder.lean models the host root table (GLOBAL_ROOTS) as a mutex that script threads take from UNPUBLISHED code and the collector takes to read the roots: no_deadlock_stop_first - with the code's order (the table is a leaf lock of the collector: taken after the world is stopped, released before it is resumed) no reachable state is deadlocked, for every number of mutators and every schedule; lock_first_deadlocks - the reversed order deadlocks in 4 steps with one mutator. Tied to the source by translate/c16_locks.py (regenerated every run): spin_holds_no_unpublished_lock (no named guard bound by Heap::mark / with_locked_env before enumerate_stacks / call_per_ctx is on a mutex that is taken outside a safepoint), root_table_taken_unpublished, heap_lock_inside_safepoint (every heap.lock outside the serialised-spawn / engine-clone paths is inside enter_safepoint). NOT a theorem: liveness under a real OS scheduler (no fairness is assumed or proved - the theorems say a step exists, not that it is taken), and that the Rust code follows the model - that is the program-level run: generated programs must finish with the generator's value while the watchdog sees stop requests complete and instructions being dispatched.",
     "level_note": "Trusted: Lean kernel (axioms propext, Classical.choice, Quot.sound), harness c16, the python generator and comparison, the regex translator. Modelled, not verified: sequentially consistent atomics (the code uses Relaxed), parking_lot / std mutexes, std::thread::park tokens, crossbeam channels and JoinHandle by their specifications; host interrupts are excluded from the progress theorems (C17). The thread list order in the model is spawn order (code: registration order). OS scheduling fairness, wall-clock time and Relaxed visibility delays are outside the model.",
 }
 
